@@ -54,6 +54,32 @@ class necessary_preconditions_fixpoint_iterator
   bb_abstract_map_t m_invariants;
   // preconditions from good states, otherwise from bad states
   bool m_good_states;
+  // Blocks without a path to the exit block. The fixpoint over the
+  // reversed CFG never visits them.
+  std::set<bb_label_t> m_cannot_reach_exit;
+
+  void compute_cannot_reach_exit() {
+    std::set<bb_label_t> can_reach_exit;
+    if (m_cfg.has_exit()) {
+      std::vector<bb_label_t> worklist{m_cfg.exit()};
+      can_reach_exit.insert(m_cfg.exit());
+      while (!worklist.empty()) {
+        bb_label_t n = worklist.back();
+        worklist.pop_back();
+        for (auto const &p : m_cfg.prev_nodes(n)) {
+          if (can_reach_exit.insert(p).second) {
+            worklist.push_back(p);
+          }
+        }
+      }
+    }
+    for (auto it = m_cfg.label_begin(), et = m_cfg.label_end(); it != et;
+         ++it) {
+      if (can_reach_exit.count(*it) == 0) {
+        m_cannot_reach_exit.insert(*it);
+      }
+    }
+  }
 
   /**
    * Compute necessary preconditions for a basic block
@@ -72,6 +98,18 @@ class necessary_preconditions_fixpoint_iterator
     if (it != m_invariants.end()) {
       invariant = it->second;
     }
+    if (!m_good_states && !m_cannot_reach_exit.empty()) {
+      // A successor that cannot reach the exit block is never analyzed
+      // so nothing is known about the errors it can lead to: any
+      // state leaving this block might end up in an error.
+      for (auto const &succ : m_cfg.next_nodes(node)) {
+        if (m_cannot_reach_exit.count(succ) > 0) {
+          precond = m_absval_fac.make_top();
+          break;
+        }
+      }
+    }
+
     // rebuild local invariants that hold at each program point.
     abs_fwd_tr_t F(invariant);
     pp_abstract_map_t pp_invariants;
@@ -124,7 +162,9 @@ public:
       const fixpoint_parameters &fixpo_params)
     : fixpoint_iterator_t(crab::cfg::cfg_rev<CFG>(cfg), absval_fac, 
 			  fixpo_params),
-      m_cfg(cfg), m_absval_fac(absval_fac), m_good_states(false) {}
+      m_cfg(cfg), m_absval_fac(absval_fac), m_good_states(false) {
+    compute_cannot_reach_exit();
+  }
 
   // This constructor computes necessary preconditions from
   // safe/good (error) states if good_states is true (false).
@@ -133,7 +173,9 @@ public:
       const fixpoint_parameters &fixpo_params)
     : fixpoint_iterator_t(crab::cfg::cfg_rev<CFG>(cfg), absval_fac, 
 			  fixpo_params),
-      m_cfg(cfg), m_absval_fac(absval_fac), m_good_states(good_states) {}
+      m_cfg(cfg), m_absval_fac(absval_fac), m_good_states(good_states) {
+    compute_cannot_reach_exit();
+  }
   
   
   // postcond: final states that we want to propagate backwards  
